@@ -3,11 +3,14 @@ From Verif Require Import Base.Run C05.Model C05.Spec C05.Time.
 Import ListNotations.
 Open Scope Z_scope.
 
-(* three kinds of case: a whole Response of the usual shape through the acceptance path (HTTP-POST, Conditions,
+(* four kinds of case: a whole Response of the usual shape through the acceptance path (HTTP-POST, Conditions,
    one bearer confirmation, one AuthnStatement); a whole Response of ANY shape (delivery, Destination, encrypted
-   or not, Conditions or none, several confirmations / AuthnStatements: Model.message); or one time-stamp TEXT through
+   or not, Conditions or none, several confirmations / AuthnStatements: Model.message); such a Response whose
+   confirmations are DECORATED (method, Address, KeyInfo) and for which the application may name the peer
+   (Model.dinput); or one time-stamp TEXT through
    calendar.timegm(time_util.str_to_time(text)) (observed: the seconds, or the exception class) *)
-Inductive case := CAccept (x : input) (v : verdict) | CMsg (x : xinput) (v : verdict) | CTime (s : string) (r : tres).
+Inductive case := CAccept (x : input) (v : verdict) | CMsg (x : xinput) (v : verdict) | CDec (x : dinput) (v : verdict)
+  | CTime (s : string) (r : tres).
 
 Definition mk (now : Z) (atd : option Z) (cnb cnooa snb snooa sess : option stamp) (issue : stamp)
   (obs : verdict) : case :=
@@ -20,6 +23,17 @@ Definition mkx (now : Z) (atd : option Z) (b : binding) (dest : option bool) (en
           xm := {| m_binding := b; m_destination := dest; m_encrypted := enc; m_issue := issue; m_conditions := cond;
                    m_confirmations := confs; m_statements := stmts |} |} obs.
 
+(* decoration of one confirmation: method, Address, KeyInfo *)
+Definition dk (m : method) (a : address) (ki : bool) : decor := {| k_method := m; k_address := a; k_keyinfo := ki |}.
+
+Definition mkd (now : Z) (atd : option Z) (b : binding) (dest : option bool) (enc : bool) (issue : stamp)
+  (cond : option window) (confs : list (option window)) (stmts : list (option stamp))
+  (decs : list decor) (r : remote) (served : bool) (obs : verdict) : case :=
+  CDec {| d_x := {| xnow := now; xatd := atd;
+                    xm := {| m_binding := b; m_destination := dest; m_encrypted := enc; m_issue := issue; m_conditions := cond;
+                             m_confirmations := confs; m_statements := stmts |} |};
+          d_decor := decs; d_remote := r; d_served := served |} obs.
+
 Definition verdict_eqb (a b : verdict) : bool :=
   match a, b with
   | Reject, Reject => true
@@ -31,6 +45,7 @@ Definition agrees (c : case) : bool :=
   match c with
   | CAccept x v => verdict_eqb (accept x) v
   | CMsg x v => verdict_eqb (xaccept x) v
+  | CDec x v => verdict_eqb (daccept x) v
   | CTime s r => tres_eqb (str_to_secs s) r
   end.
 (* the property speaks about acceptance; for a text case the spec is what C05 needs from the reader: a text
@@ -39,6 +54,7 @@ Definition holds (c : case) : bool :=
   match c with
   | CAccept x v => spec_b x v
   | CMsg x v => xspec_b x v
+  | CDec x v => dspec_b x v
   | CTime s r => match strptime s, r with
                  | Some f, TVal z => Z.eqb z (timegm f)     (* a well-formed calendar text reads as that second *)
                  | Some f, _ => negb (timegm f <? Y10K)%Z   (* ... unless it lies beyond year 9999 (leap second 9999-12-31T23:59:60) *)
@@ -51,5 +67,6 @@ Definition explain (c : case) :=
   match c with
   | CAccept x v => (Some (accept x, sound_b x v, strictly_inside_b x), None)
   | CMsg x v => (Some (xaccept x, xsound_b x v, xstrictly_inside_b x), None)
+  | CDec x v => (Some (daccept x, dsound_b x v, dstrictly_inside_b x), None)
   | CTime s r => (None, Some (str_to_secs s, strptime s, frag s))
   end.
